@@ -211,7 +211,19 @@ impl<'a> RecordBuilder<'a> {
             DataType::Int2 => self.set_int2(col_idx, value as i16),
             DataType::Int4 => self.set_int4(col_idx, value as i32),
             DataType::Bool => self.set_bool(col_idx, value != 0),
+            // a DATE is stored as a 4-byte day number; rows read back for UPDATE carry it as an integer
+            DataType::Date => self.set_date(col_idx, value as i32),
             _ => self.set_int8(col_idx, value),
+        }
+    }
+
+    /// Writes a float with the width of the column (REAL / FLOAT4 columns hold 4 bytes).
+    pub fn set_float_auto(&mut self, col_idx: usize, value: f64) -> Result<()> {
+        use crate::types::DataType;
+
+        match self.schema.column(col_idx).map(|c| c.data_type) {
+            Some(DataType::Float4) => self.set_float4(col_idx, value as f32),
+            _ => self.set_float8(col_idx, value),
         }
     }
 
